@@ -1390,6 +1390,8 @@ impl DbInner {
 	}
 
 	fn shutdown(&self) {
+		#[cfg(pdb_verif)]
+		crate::verif::touch_write(crate::verif::TOUCH_SHUTDOWN);
 		self.shutdown.store(true, Ordering::SeqCst);
 		{
 			// Notify under the mutex: the log worker tests `shutdown` and starts waiting while it
@@ -1679,6 +1681,8 @@ impl Db {
 	fn commit_worker(db: Arc<DbInner>) -> Result<()> {
 		let mut more_work = false;
 		while !db.shutdown.load(Ordering::SeqCst) || more_work {
+			#[cfg(pdb_verif)]
+			crate::verif::touch_read(crate::verif::TOUCH_SHUTDOWN);
 			if !more_work {
 				db.cleanup_worker_wait.signal();
 				if !db.log.has_log_files_to_read() {
@@ -1698,6 +1702,8 @@ impl Db {
 		let mut more_commits = false;
 		// Process all commits but allow reindex to be interrupted.
 		while !db.shutdown.load(Ordering::SeqCst) || more_commits {
+			#[cfg(pdb_verif)]
+			crate::verif::touch_read(crate::verif::TOUCH_SHUTDOWN);
 			if !more_commits && !more_reindex {
 				db.log_worker_wait.wait();
 			}
@@ -1712,6 +1718,8 @@ impl Db {
 	fn flush_worker(db: Arc<DbInner>, min_log_size: u64) -> Result<()> {
 		let mut more_work = false;
 		while !db.shutdown.load(Ordering::SeqCst) {
+			#[cfg(pdb_verif)]
+			crate::verif::touch_read(crate::verif::TOUCH_SHUTDOWN);
 			if !more_work {
 				db.flush_worker_wait.wait();
 			}
@@ -1724,6 +1732,8 @@ impl Db {
 	fn cleanup_worker(db: Arc<DbInner>) -> Result<()> {
 		let mut more_work = true;
 		while !db.shutdown.load(Ordering::SeqCst) || more_work {
+			#[cfg(pdb_verif)]
+			crate::verif::touch_read(crate::verif::TOUCH_SHUTDOWN);
 			if !more_work {
 				db.cleanup_worker_wait.wait();
 			}
